@@ -15,6 +15,7 @@ func configs(quick bool) []Cfg {
 	retry := []string{"propose:max", "dkgfast", "sigany", "act", "block", "jumpexec"}
 	nonce := []string{"propose:max", "dkgfast", "req", "sig", "block", "jumpexec"}
 	signed := []string{"propose:max", "dkgfast", "sig", "req", "inde", "block", "jumpexec"}
+	again := []string{"propose:min", "propose:max", "force:min", "probe", "dkgfast", "block", "jumpexec", "expire"}
 	if quick {
 		return []Cfg{
 			// A: the whole life cycle of one proposal at round granularity, all timings around the exec time
@@ -25,7 +26,7 @@ func configs(quick bool) []Cfg {
 				InitDE: 3, MaxProposals: 1, MaxReq: 1, MaxTransitionSec: 30, FeePerSigner: 10, Events: handover, Depth: 8},
 			// C: the module's first group (nobody to hand over)
 			{Name: "first-group", CurN: 0, IncN: 2, IncT: 1, SigningPeriod: 2, MaxSigningAttempt: 1, CreationPeriod: 5,
-				InitDE: 0, MaxProposals: 1, MaxReq: 1, MaxTransitionSec: 30, FeePerSigner: 10, Events: boot, Depth: 10},
+				InitDE: 0, MaxProposals: 1, MaxReq: 1, MaxTransitionSec: 30, FeePerSigner: 10, Events: boot, Depth: 9},
 			// D: hand-over signing timed out and retried, idle members deactivated and re-activated
 			{Name: "retry", CurN: 3, CurT: 2, IncN: 2, IncT: 2, SameAccounts: true, SigningPeriod: 1, MaxSigningAttempt: 2, CreationPeriod: 8,
 				InitDE: 2, MaxProposals: 1, MaxReq: 0, MaxTransitionSec: 60, FeePerSigner: 5, Events: retry, Depth: 10},
@@ -35,11 +36,39 @@ func configs(quick bool) []Cfg {
 			// F: requests during a signed (not forced) hand-over: incoming group with and without nonces
 			{Name: "signed-handover-requests", CurN: 2, CurT: 1, IncN: 2, IncT: 2, SigningPeriod: 3, MaxSigningAttempt: 1, CreationPeriod: 8,
 				InitDE: 3, MaxProposals: 1, MaxReq: 1, MaxTransitionSec: 60, FeePerSigner: 7, Events: signed, Depth: 9},
+			// G: a second proposal after a dropped one; forced transitions to groups left behind by dropped proposals
+			// (unfinished, expired, finished)
+			{Name: "after-a-dropped-proposal", CurN: 2, CurT: 2, IncN: 2, IncT: 1, SigningPeriod: 3, MaxSigningAttempt: 1, CreationPeriod: 3,
+				InitDE: 3, MaxProposals: 2, MaxReq: 0, MaxTransitionSec: 60, FeePerSigner: 7, Events: again, Depth: 8},
 		}
 	}
+	lifeMsg := []string{"propose:max", "probe", "dkg", "dkgmsg", "spoil", "sigany", "block", "jumpexec"}
+	stale := []string{"propose:min", "propose:max", "probe", "dkg", "stale", "sig", "block", "jumpexec"}
+	handoverT := []string{"force:min", "force:max", "probe", "req", "reqgov", "inde", "sig", "act", "block", "jump"}
+	retryT := []string{"propose:max", "dkgfast", "sigany", "req", "act", "block", "jumpexec"}
+	signedT := []string{"propose:max", "dkgfast", "sig", "req", "reqgov", "inde", "block", "jump"}
+	againT := []string{"propose:min", "propose:max", "force:min", "force:max", "probe", "dkg", "spoil", "sig", "block", "jumpexec", "expire"}
 	return []Cfg{
 		{Name: "lifecycle", CurN: 3, CurT: 2, IncN: 2, IncT: 2, SigningPeriod: 2, MaxSigningAttempt: 1, CreationPeriod: 5,
-			InitDE: 3, MaxProposals: 1, MaxReq: 0, MaxTransitionSec: 30, FeePerSigner: 10, Events: life, Depth: 14},
+			InitDE: 3, MaxProposals: 1, MaxReq: 0, MaxTransitionSec: 30, FeePerSigner: 10, Events: life, Depth: 15},
+		{Name: "lifecycle-per-message", CurN: 3, CurT: 2, IncN: 2, IncT: 2, SigningPeriod: 2, MaxSigningAttempt: 2, CreationPeriod: 6,
+			InitDE: 3, MaxProposals: 1, MaxReq: 0, MaxTransitionSec: 45, FeePerSigner: 10, Events: lifeMsg, Depth: 16},
+		{Name: "lifecycle-same-accounts", CurN: 2, CurT: 2, IncN: 2, IncT: 1, SameAccounts: true, SigningPeriod: 2, MaxSigningAttempt: 1, CreationPeriod: 5,
+			InitDE: 3, MaxProposals: 1, MaxReq: 1, MaxTransitionSec: 30, FeePerSigner: 10, Events: append(append([]string{}, life...), "req"), Depth: 13},
+		{Name: "two-proposals-stale-keygen", CurN: 2, CurT: 1, IncN: 2, IncT: 1, SigningPeriod: 2, MaxSigningAttempt: 1, CreationPeriod: 6,
+			InitDE: 4, MaxProposals: 2, MaxReq: 0, MaxTransitionSec: 30, FeePerSigner: 10, Events: stale, Depth: 13},
+		{Name: "handover-requests", CurN: 2, CurT: 2, IncN: 2, IncT: 1, Spare: true, SigningPeriod: 2, MaxSigningAttempt: 2, CreationPeriod: 5,
+			InitDE: 3, MaxProposals: 2, MaxReq: 2, MaxTransitionSec: 30, FeePerSigner: 10, Events: handoverT, Depth: 9},
+		{Name: "first-group", CurN: 0, IncN: 3, IncT: 2, SigningPeriod: 2, MaxSigningAttempt: 2, CreationPeriod: 5,
+			InitDE: 0, MaxProposals: 2, MaxReq: 2, MaxTransitionSec: 30, FeePerSigner: 10, Events: boot, Depth: 12},
+		{Name: "retry", CurN: 3, CurT: 2, IncN: 2, IncT: 2, SameAccounts: true, SigningPeriod: 1, MaxSigningAttempt: 3, CreationPeriod: 8,
+			InitDE: 3, MaxProposals: 1, MaxReq: 1, MaxTransitionSec: 60, FeePerSigner: 5, Events: retryT, Depth: 12},
+		{Name: "scarce-nonces", CurN: 3, CurT: 2, IncN: 2, IncT: 2, SigningPeriod: 2, MaxSigningAttempt: 2, CreationPeriod: 8,
+			InitDE: 1, MaxProposals: 1, MaxReq: 2, MaxTransitionSec: 60, FeePerSigner: 5, Events: nonce, Depth: 11},
+		{Name: "signed-handover-requests", CurN: 2, CurT: 1, IncN: 2, IncT: 2, SigningPeriod: 3, MaxSigningAttempt: 1, CreationPeriod: 8,
+			InitDE: 3, MaxProposals: 1, MaxReq: 2, MaxTransitionSec: 60, FeePerSigner: 7, Events: signedT, Depth: 11},
+		{Name: "after-a-dropped-proposal", CurN: 2, CurT: 2, IncN: 2, IncT: 1, SigningPeriod: 3, MaxSigningAttempt: 1, CreationPeriod: 4,
+			InitDE: 3, MaxProposals: 2, MaxReq: 0, MaxTransitionSec: 60, FeePerSigner: 7, Events: againT, Depth: 11},
 	}
 }
 
@@ -50,9 +79,14 @@ func init() {
 		ID: "C18",
 		Run: func(r *engine.Run) {
 			r.Bound = "see configs"
-			deadline := r.Deadline(4*time.Minute, 40*time.Minute)
+			// internal caps per configuration (never an oracle): a configuration that hits its cap is
+			// reported as exhaustive:false and the next one still runs
+			per := 5 * time.Minute
+			if r.Quick() {
+				per = 75 * time.Second
+			}
 			for i, c := range configs(r.Quick()) {
-				sr := engine.Search(&spec{cfg: c}, engine.SearchOpts{Depth: c.Depth, Deadline: deadline})
+				sr := engine.Search(&spec{cfg: c}, engine.SearchOpts{Depth: c.Depth, Deadline: time.Now().Add(per)})
 				r.AddSearch(fmt.Sprintf("cfg%d[%s]", i, c.Name), c, sr)
 			}
 			r.ConfirmViolations(mk)
